@@ -1,7 +1,7 @@
 #!/bin/bash
-# usage: tools/confirm_seed.sh <ID> [demo-test-name]   — independent confirmation of a sub-agent's seeded change in its scratch worktree /tmp/seed_<ID>
+# usage: tools/confirm_seed.sh <ID> [worktree]   — independent confirmation of a sub-agent's seeded change in its scratch worktree /tmp/seed_<ID>
 # checks: (1) with the change the workspace compiles and the 57 baseline tests still pass, (2) the demonstration fails with the change, (3) passes without it.
-id="$1"; wt=/tmp/seed_$id
+id="$1"; wt=${2:-/tmp/seed_$id}
 export CARGO_TARGET_DIR=$wt/target CARGO_NET_OFFLINE=true
 unset RUST_BACKTRACE
 cd $wt || exit 2
